@@ -12,7 +12,7 @@ LEVEL_TEXT = (
     'end or a closed cycle; Path values are only built by re-executing the model; parent pointers '
     'are the expanding job. Does not decide fingerprint collisions or model determinism.')
 
-FLOORS = {'C03-R1': 12, 'C03-R2': 3, 'C03-R3': 4, 'C03-R4': 1, 'C03-R5': 6, 'C03-R6': 4, 'C03-R7': 1}
+FLOORS = {'C03-R1': 12, 'C03-R2': 3, 'C03-R3': 4, 'C03-R4': 1, 'C03-R5': 6, 'C03-R6': 4, 'C03-R7': 1, 'C03-R8': 1}
 
 
 # --------------------------------------------------------------------------------------------
@@ -396,4 +396,29 @@ def run(ctx):
                       'on every path of a trace')
     with ctx.rule('C03-R7', 'SIM'):
         r7_sim_fresh_cycle_set(ctx, F)
+    ctx.doc('C03-R8', 'simulation: the recorded / evaluated state itself passed within_boundary')
+    with ctx.rule('C03-R8', 'SIM'):
+        r8_sim_evaluated_state_in_boundary(ctx, F)
     r6_parent_pointers(ctx, F)
+
+
+def r8_sim_evaluated_state_in_boundary(ctx, F, rule='C03-R8'):
+    """Simulation has no filtered initial-state list: every state whose fingerprint is appended to the path
+    and whose properties are evaluated - the chosen initial state included - must first have passed
+    within_boundary. The test has to be of the trace's current state (the loop-carried variable), and its
+    true edge has to dominate the path push and every condition call."""
+    cb = CB(F, 'SIM')
+    b = cb.b
+    ctx.touched(b)
+    push, fpcall, path_local = sim_path_local(cb)
+    state_v = noref(b.val(fpcall.args[0]))
+    wv = noref(b.val(cb.wb.args[1]))
+    te = cb.wb_true
+    same = wv == state_v
+    guarded = bool(te) and b.edges_dominate(te, push.bb) and all(b.edges_dominate(te, c.bb) for c in cb.cond_calls)
+    ctx.check(same and guarded, rule, 'evaluated-state-passed-boundary', b,
+              good='the state that is recorded and evaluated is the one within_boundary accepted',
+              bad='SIM: a state is appended to the path / evaluated without having passed within_boundary itself '
+                  '(the boundary test is applied to %r, the evaluated state is %r%s): a trace can start in - and '
+                  'report discoveries through - an initial state outside the boundary' %
+                  (wv, state_v, '' if guarded else '; its true edge does not dominate the evaluation'))
